@@ -579,6 +579,11 @@ func (f *frame) execConvert(x *ssa.Convert, st *state, reach string) *sym {
 	case from == "String" && to == "Slice":
 		s := f.freshOf(x.Type(), "bytes", st, reach)
 		vc.assume(reach, fmt.Sprintf("(and (= (slen %s) (str.len %s)) (not (= (sbase %s) nil)))", s.t, a, s.t))
+		// the text of a freshly converted byte slice is the string it was converted from (str_of names it for
+		// contracts of byte-comparing library functions; later in-place mutation of the slice is not tracked)
+		if app, ok := vc.ufuncApp("str_of", s.t); ok {
+			vc.assume(reach, eq(app, a))
+		}
 		return s
 	case from == "Slice" && to == "String":
 		s := f.freshOf(x.Type(), "str", st, reach)
@@ -1075,6 +1080,18 @@ func (f *frame) applyContract(c *Contract, rel string, callee *ssa.Function, arg
 		results = res.tuple
 	} else if tup, ok := rt.(*types.Tuple); !ok || tup.Len() > 0 {
 		results = []*sym{res}
+	}
+	if c.RetClosure != "" && len(results) == 1 {
+		if fn := vc.w.funcs[absName(c.RetClosure, c.Pkg)]; fn != nil {
+			ci := &closInfo{fn: fn}
+			for _, fv := range fn.FreeVars {
+				ci.bindings = append(ci.bindings, f.freshOf(fv.Type(), "capt_"+fv.Name(), nil, reach))
+			}
+			results[0].clos = ci
+			vc.assume(reach, not(eq(results[0].t, "nil")))
+		} else {
+			vc.oblige("bind", "returnsclosure_"+mangle(c.RetClosure), "true", "false", pos, "returnsclosure "+c.RetClosure+": no such function", nil).Trivial = false
+		}
 	}
 	if c.NonNilRes && len(results) > 0 {
 		switch vc.w.so.sortOf(results[0].typ) {
